@@ -82,6 +82,10 @@ struct Case {
     max_age_ms: Option<u64>,
     /// number of accept errors the listener reports (each one an event of the alphabet)
     accept_errs: usize,
+    /// calls not yet started when the signal fires are started in that very step, and the signal is
+    /// raised by the transport at the moment their first bytes reach the server's (so far unused)
+    /// connection: the connection's task finds the request and the signal on the same wake-up
+    start_with_signal: bool,
 }
 
 fn steps_of(shape: Shape) -> usize {
@@ -196,6 +200,7 @@ fn body(c: &Case, ch: &Chooser) -> Outcome {
         let mut signal: Option<tokio::sync::oneshot::Sender<()>> = Some(sig_tx);
         let mut offered = false;
         let mut sig_keep: Option<tokio::sync::oneshot::Sender<()>> = None;
+        let mut sig_keep_shared: Option<Arc<Mutex<Option<tokio::sync::oneshot::Sender<()>>>>> = None;
         let mut pre_io: Option<hyper_util::rt::TokioIo<vnet::NetIo>> = None;
         let mut open_at_resolution: Option<usize> = None;
         let mut late_handle: Option<tokio::task::JoinHandle<Option<ClientView>>> = None;
@@ -257,6 +262,34 @@ fn body(c: &Case, ch: &Chooser) -> Outcome {
                     }
                 }
                 E::Signal => {
+                    let mut raised_by_transport = false;
+                    if c.start_with_signal && (0..n).any(|k| !started[k]) {
+                        // arm the server ends: whichever sees request bytes first raises the signal
+                        if let Some(tx) = signal.take() {
+                            let shared = Arc::new(Mutex::new(Some(tx)));
+                            for end in st.server_ends.lock().unwrap().iter() {
+                                let sh = shared.clone();
+                                *end.on_next_data.lock().unwrap() = Some(Box::new(move || {
+                                    if let Some(tx) = sh.lock().unwrap().take() {
+                                        let _ = tx.send(());
+                                    }
+                                }));
+                            }
+                            sig_keep_shared = Some(shared);
+                            raised_by_transport = true;
+                        }
+                        for k in 0..n {
+                            if !started[k] {
+                                started[k] = true;
+                                log.push(format!("Start({k})"));
+                                let (shape, ci) = c.calls[k];
+                                let mut client = EchoClient::new(channels[ci].clone());
+                                let chx = ch.clone();
+                                handles[k] = Some(tokio::spawn(async move { client_call(&mut client, shape, vec![vec![k as u8]], &vec![], false, &chx, |_| {}).await }));
+                            }
+                        }
+                    }
+                    let _ = raised_by_transport;
                     if c.same_step && c.offer_after && !offered {
                         // the new connection reaches the listener in the very step in which the
                         // signal fires: hand its server end over first, synchronously
@@ -328,6 +361,7 @@ fn body(c: &Case, ch: &Chooser) -> Outcome {
         }
         // everything scripted has happened: let the system finish
         drop(sig_keep);
+        drop(sig_keep_shared);
         let kept = if c.keep_clients { Some(channels) } else { drop(channels); None };
         vnet::settle_ms(50).await;
         let mut ends: Vec<CallEnd> = vec![];
@@ -392,6 +426,10 @@ fn body(c: &Case, ch: &Chooser) -> Outcome {
             CallEnd::NotStarted => {}
             CallEnd::Wrong(v) if accepted => o.violate("accepted-call-wrong-outcome", format!("call {k} was accepted but its caller saw {v}")),
             CallEnd::Error(s) if accepted => o.violate("accepted-call-lost", format!("call {k} reached its handler but its caller got {s}")),
+            // a call whose request had reached the server's connection when the signal fired is in
+            // flight "before its response headers": it may be served, or refused in an orderly way
+            // (UNAVAILABLE: GOAWAY / REFUSED_STREAM), but not dropped together with its connection
+            CallEnd::Error(s) if c.start_with_signal && !s.contains("code=Unavailable") => o.violate("in-flight-call-dropped", format!("call {k}'s request had reached the server when the signal fired; it was neither served nor refused, its caller got {s}")),
             _ => {}
         }
     }
@@ -465,49 +503,58 @@ fn cases(tier: Tier) -> Vec<Case> {
     // idle-connection variant)
     for conns in [0usize, 1] {
         for seed in 0..8 {
-            out.push(Case { calls: vec![], conns, chop: 0, seed, offer_after: true, same_step: true, signal_on_accept: false, end_incoming: false, keep_clients: false, max_age_ms: None, accept_errs: 0 });
+            out.push(Case { calls: vec![], conns, chop: 0, seed, offer_after: true, same_step: true, signal_on_accept: false, end_incoming: false, keep_clients: false, max_age_ms: None, accept_errs: 0, start_with_signal: false });
         }
-        out.push(Case { calls: vec![], conns, chop: 0, seed: 0, offer_after: true, same_step: false, signal_on_accept: false, end_incoming: false, keep_clients: false, max_age_ms: None, accept_errs: 0 });
+        out.push(Case { calls: vec![], conns, chop: 0, seed: 0, offer_after: true, same_step: false, signal_on_accept: false, end_incoming: false, keep_clients: false, max_age_ms: None, accept_errs: 0, start_with_signal: false });
         for chop in [0usize, 2] {
-            out.push(Case { calls: vec![], conns, chop, seed: 0, offer_after: true, same_step: true, signal_on_accept: true, end_incoming: false, keep_clients: false, max_age_ms: None, accept_errs: 0 });
+            out.push(Case { calls: vec![], conns, chop, seed: 0, offer_after: true, same_step: true, signal_on_accept: true, end_incoming: false, keep_clients: false, max_age_ms: None, accept_errs: 0, start_with_signal: false });
         }
+    }
+    // the first request of an idle connection arrives together with the signal
+    for seed in 0..6 {
+        for shape in [Shape::Unary, Shape::ServerStream] {
+            for chop in [0usize, 2] {
+                out.push(Case { calls: vec![(shape, 0)], conns: 1, chop, seed, offer_after: false, same_step: false, signal_on_accept: false, end_incoming: false, keep_clients: false, max_age_ms: None, accept_errs: 0, start_with_signal: true });
+            }
+        }
+        out.push(Case { calls: vec![(Shape::Unary, 0), (Shape::ServerStream, 1)], conns: 2, chop: 0, seed, offer_after: false, same_step: false, signal_on_accept: false, end_incoming: false, keep_clients: false, max_age_ms: None, accept_errs: 0, start_with_signal: true });
     }
     // the listener reports accept errors (descriptor exhaustion, aborted handshakes) around the signal
     for seed in 0..4 {
         for accept_errs in [1usize, 2] {
-            out.push(Case { calls: vec![], conns: 0, chop: 0, seed, offer_after: true, same_step: false, signal_on_accept: false, end_incoming: false, keep_clients: false, max_age_ms: None, accept_errs });
-            out.push(Case { calls: vec![(Shape::Unary, 0)], conns: 1, chop: 0, seed, offer_after: true, same_step: false, signal_on_accept: false, end_incoming: false, keep_clients: false, max_age_ms: None, accept_errs });
+            out.push(Case { calls: vec![], conns: 0, chop: 0, seed, offer_after: true, same_step: false, signal_on_accept: false, end_incoming: false, keep_clients: false, max_age_ms: None, accept_errs, start_with_signal: false });
+            out.push(Case { calls: vec![(Shape::Unary, 0)], conns: 1, chop: 0, seed, offer_after: true, same_step: false, signal_on_accept: false, end_incoming: false, keep_clients: false, max_age_ms: None, accept_errs, start_with_signal: false });
         }
     }
     for s in [Shape::Unary, Shape::ServerStream] {
-        out.push(Case { calls: vec![(s, 0)], conns: 1, chop: 0, seed: 0, offer_after: true, same_step: true, signal_on_accept: true, end_incoming: false, keep_clients: false, max_age_ms: None, accept_errs: 0 });
+        out.push(Case { calls: vec![(s, 0)], conns: 1, chop: 0, seed: 0, offer_after: true, same_step: true, signal_on_accept: true, end_incoming: false, keep_clients: false, max_age_ms: None, accept_errs: 0, start_with_signal: false });
         // the listener ends while calls are in flight
-        out.push(Case { calls: vec![(s, 0)], conns: 1, chop: 0, seed: 0, offer_after: false, same_step: false, signal_on_accept: false, end_incoming: true, keep_clients: false, max_age_ms: None, accept_errs: 0 });
-        out.push(Case { calls: vec![(s, 0), (Shape::Unary, 1)], conns: 2, chop: 2, seed: 0, offer_after: false, same_step: false, signal_on_accept: false, end_incoming: true, keep_clients: false, max_age_ms: None, accept_errs: 0 });
+        out.push(Case { calls: vec![(s, 0)], conns: 1, chop: 0, seed: 0, offer_after: false, same_step: false, signal_on_accept: false, end_incoming: true, keep_clients: false, max_age_ms: None, accept_errs: 0, start_with_signal: false });
+        out.push(Case { calls: vec![(s, 0), (Shape::Unary, 1)], conns: 2, chop: 2, seed: 0, offer_after: false, same_step: false, signal_on_accept: false, end_incoming: true, keep_clients: false, max_age_ms: None, accept_errs: 0, start_with_signal: false });
         // max_connection_age elapsing before / after the signal
         for age in [2u64, 5] {
-            out.push(Case { calls: vec![(s, 0)], conns: 1, chop: 0, seed: 1, offer_after: false, same_step: false, signal_on_accept: false, end_incoming: false, keep_clients: false, max_age_ms: Some(age), accept_errs: 0 });
+            out.push(Case { calls: vec![(s, 0)], conns: 1, chop: 0, seed: 1, offer_after: false, same_step: false, signal_on_accept: false, end_incoming: false, keep_clients: false, max_age_ms: Some(age), accept_errs: 0, start_with_signal: false });
         }
     }
     // clients that keep their idle channels: the server must close the connections itself
     for calls in [vec![(Shape::Unary, 0)], vec![(Shape::ServerStream, 0), (Shape::Unary, 1)], vec![]] {
         let conns = calls.iter().map(|(_, c)| c + 1).max().unwrap_or(1);
-        out.push(Case { calls, conns, chop: 0, seed: 0, offer_after: false, same_step: false, signal_on_accept: false, end_incoming: false, keep_clients: true, max_age_ms: None, accept_errs: 0 });
+        out.push(Case { calls, conns, chop: 0, seed: 0, offer_after: false, same_step: false, signal_on_accept: false, end_incoming: false, keep_clients: true, max_age_ms: None, accept_errs: 0, start_with_signal: false });
     }
-    out.push(Case { calls: vec![(Shape::Unary, 0), (Shape::ServerStream, 0)], conns: 1, chop: 0, seed: 1, offer_after: false, same_step: false, signal_on_accept: false, end_incoming: false, keep_clients: false, max_age_ms: Some(2), accept_errs: 0 });
+    out.push(Case { calls: vec![(Shape::Unary, 0), (Shape::ServerStream, 0)], conns: 1, chop: 0, seed: 1, offer_after: false, same_step: false, signal_on_accept: false, end_incoming: false, keep_clients: false, max_age_ms: Some(2), accept_errs: 0, start_with_signal: false });
     for (i, (calls, conns)) in call_sets.iter().enumerate() {
         let chops: Vec<usize> = if tier == Tier::Thorough { vec![0, 2, 3] } else { vec![[0, 2, 3][i % 3]] };
         for chop in chops {
-            out.push(Case { calls: calls.clone(), conns: *conns, chop, seed: 0, offer_after: true, same_step: false, signal_on_accept: false, end_incoming: false, keep_clients: false, max_age_ms: None, accept_errs: 0 });
+            out.push(Case { calls: calls.clone(), conns: *conns, chop, seed: 0, offer_after: true, same_step: false, signal_on_accept: false, end_incoming: false, keep_clients: false, max_age_ms: None, accept_errs: 0, start_with_signal: false });
             if calls.len() == 1 || tier == Tier::Thorough {
                 for seed in 0..4 {
-                    out.push(Case { calls: calls.clone(), conns: *conns, chop, seed, offer_after: true, same_step: true, signal_on_accept: false, end_incoming: false, keep_clients: false, max_age_ms: None, accept_errs: 0 });
+                    out.push(Case { calls: calls.clone(), conns: *conns, chop, seed, offer_after: true, same_step: true, signal_on_accept: false, end_incoming: false, keep_clients: false, max_age_ms: None, accept_errs: 0, start_with_signal: false });
                 }
             }
         }
         if tier == Tier::Thorough && calls.len() <= 2 {
             for age in [2u64, 6] {
-                out.push(Case { calls: calls.clone(), conns: *conns, chop: 0, seed: 1, offer_after: false, same_step: false, signal_on_accept: false, end_incoming: false, keep_clients: false, max_age_ms: Some(age), accept_errs: 0 });
+                out.push(Case { calls: calls.clone(), conns: *conns, chop: 0, seed: 1, offer_after: false, same_step: false, signal_on_accept: false, end_incoming: false, keep_clients: false, max_age_ms: Some(age), accept_errs: 0, start_with_signal: false });
             }
         }
     }
@@ -518,9 +565,9 @@ pub fn property(tier: Tier) -> Property {
     let sec = Section::new(
         "shutdown-schedules",
         Config { hang_secs: 60, ..Default::default() },
-        "cases: 1..2 (thorough 3) concurrent calls (unary: 1 gated handler step; server-streaming: message, message, end = 3 gated steps) on 1..2 connections x pipe fragmentation pattern x {new connection offered after the signal has settled | in the same step as the signal under 4 RNG seeds} ; the listener's incoming stream ending instead of the signal firing; max_connection_age elapsing before/after the signal; the listener reporting 1..2 accept errors at any point before the new connection is offered; environment: the explorer enumerates EVERY interleaving of {start call k, release next handler step of call k, fire the shutdown signal, offer a new connection, report an accept error} consistent with causality (choices cost nothing), each event followed by quiescence in virtual time, on the real Server::serve_with_incoming_shutdown over in-memory pipes; RefShutdown: every call whose handler was invoked ends with its full outcome; no call hangs; the serve future is unresolved while an accepted call has steps outstanding (and before any signal), resolves after the last one finishes and the clients are gone, never with Err; a connection offered after signal+quiescence never reaches a handler and does not hang once serving ended. Non-trivial = the signal landed strictly between a call's start and its last handler step.",
+        "cases: 1..2 (thorough 3) concurrent calls (unary: 1 gated handler step; server-streaming: message, message, end = 3 gated steps) on 1..2 connections x pipe fragmentation pattern x {new connection offered after the signal has settled | in the same step as the signal under 4 RNG seeds} ; the listener's incoming stream ending instead of the signal firing; max_connection_age elapsing before/after the signal; the listener reporting 1..2 accept errors at any point before the new connection is offered; calls started in the very step in which the signal fires, the signal being raised by the transport at the moment their first bytes reach the server's so far unused connection (the connection's task finds request and signal on one wake-up; such a call is in flight: it may be served or refused with UNAVAILABLE, not dropped); environment: the explorer enumerates EVERY interleaving of {start call k, release next handler step of call k, fire the shutdown signal, offer a new connection, report an accept error} consistent with causality (choices cost nothing), each event followed by quiescence in virtual time, on the real Server::serve_with_incoming_shutdown over in-memory pipes; RefShutdown: every call whose handler was invoked ends with its full outcome; no call hangs; the serve future is unresolved while an accepted call has steps outstanding (and before any signal), resolves after the last one finishes and the clients are gone, never with Err; a connection offered after signal+quiescence never reaches a handler and does not hang once serving ended. Non-trivial = the signal landed strictly between a call's start and its last handler step.",
         cases(tier),
-        |c: &Case| format!("calls={:?} conns={} chop={} seed={} offer_after={} same_step={} signal_on_accept={} end_incoming={} keep_clients={} max_age={:?} accept_errs={}", c.calls, c.conns, c.chop, c.seed, c.offer_after, c.same_step, c.signal_on_accept, c.end_incoming, c.keep_clients, c.max_age_ms, c.accept_errs),
+        |c: &Case| format!("calls={:?} conns={} chop={} seed={} offer_after={} same_step={} signal_on_accept={} end_incoming={} keep_clients={} max_age={:?} accept_errs={} start_with_signal={}", c.calls, c.conns, c.chop, c.seed, c.offer_after, c.same_step, c.signal_on_accept, c.end_incoming, c.keep_clients, c.max_age_ms, c.accept_errs, c.start_with_signal),
         body,
     )
     .mins(100, 10, 20);
